@@ -4,6 +4,7 @@ import (
 	"fmt"
 	"go/token"
 	"go/types"
+	"hash/fnv"
 	"math/big"
 	"strings"
 )
@@ -18,12 +19,12 @@ type EvalCtx struct {
 	guard  string
 	bound  map[string]Val
 
-	isOld   bool
-	skolem  bool              // skolemise positive universal quantifiers (goal position)
-	neg     bool              // current polarity is negative
-	noq     bool              // inside <==> / ite condition: no skolemisation or instantiation
-	skolems map[string]Val    // skolem constants introduced so far (by bound variable name)
-	instAt  map[string]string // instantiate positive universal quantifiers over these variables
+	isOld    bool
+	skolem   bool                // skolemise positive universal quantifiers (goal position)
+	neg      bool                // current polarity is negative
+	noq      bool                // inside <==> / ite condition: no skolemisation or instantiation
+	skolems  map[string]Val      // skolem constants introduced so far (by bound variable name)
+	instAt   map[string]string   // instantiate positive universal quantifiers over these variables
 	goalInst map[string][]string // goal position: replace negative universal quantifiers by these instances
 }
 
@@ -191,6 +192,36 @@ func (g *FnGen) selectFieldIdx(x Val, idx int, st State) Val {
 	}
 	efail("field selection on non-struct %v", x.Go)
 	return Val{}
+}
+
+// placeOfExpr resolves a field selection in a contract to the place it designates.
+func (g *FnGen) placeOfExpr(e Expr, ctx *EvalCtx) *Place {
+	sel, ok := e.(ESel)
+	if !ok {
+		efail("addrof expects a field selection")
+	}
+	if inner, ok := sel.X.(ESel); ok {
+		// struct-valued field of an outer place?
+		bv := g.eval(sel.X, ctx)
+		if st, ok := bv.Go.Underlying().(*types.Struct); ok && bv.S != sortRef {
+			p := *g.placeOfExpr(inner, ctx)
+			_, idx := lookupFieldByName(bv.Go, sel.Field)
+			if len(idx) != 1 {
+				efail("addrof: %s is not a direct field", sel.Field)
+			}
+			p.Path = append(append([]pathStep{}, p.Path...), pathStep{structSort: g.D.sortOf(bv.Go), field: idx[0]})
+			p.Elem = st.Field(idx[0]).Type()
+			return &p
+		}
+	}
+	base := g.eval(sel.X, ctx)
+	stT, sT := derefStruct(base.Go)
+	_, idx := lookupFieldByName(base.Go, sel.Field)
+	if stT == nil || len(idx) != 1 || base.Place != nil || base.PlaceLost {
+		efail("addrof: %s is not a direct field of a struct pointer", sel.Field)
+	}
+	key, _ := g.D.fieldKey(stT, idx[0])
+	return &Place{Key: key, Base: base.T, Elem: sT.Field(idx[0]).Type()}
 }
 
 func (g *FnGen) selectField(x Val, name string, st State) Val {
@@ -622,6 +653,66 @@ func (g *FnGen) evalCall(x ECall, ctx *EvalCtx) Val {
 	case "base":
 		v := g.eval(x.Args[0], ctx)
 		return Val{T: "(s_base " + v.T + ")", S: sortRef}
+	case "sum":
+		// sum(k, lo, hi, body): the wrapping machine sum of body for k = lo .. hi-1. It is an
+		// uninterpreted function of (lo, hi) whose symbol is determined by the body term (which
+		// names the heap arrays of the evaluation state, so a different heap is a different sum);
+		// each occurrence is unfolded by one step at its upper bound.
+		if len(x.Args) != 4 {
+			efail("sum(k, lo, hi, body)")
+		}
+		kid, ok := x.Args[0].(EIdent)
+		if !ok {
+			efail("sum: first argument is the bound variable")
+		}
+		to64t := func(v Val) string {
+			if v.Lit != nil {
+				return bvLit(v.Lit, 64)
+			}
+			return to64(v)
+		}
+		lo := to64t(g.eval(x.Args[1], ctx))
+		hi := to64t(g.eval(x.Args[2], ctx))
+		bodyAt := func(t string) Val {
+			c2 := *ctx
+			nb := map[string]Val{}
+			for k, v := range ctx.bound {
+				nb[k] = v
+			}
+			nb[kid.Name] = Val{T: t, S: sortBV64, Signed: true, Go: types.Typ[types.Int]}
+			c2.bound = nb
+			return g.eval(x.Args[3], &c2)
+		}
+		ph := bodyAt("q_sumk")
+		if !isBV(ph.S) || ph.Lit != nil {
+			efail("sum: body must be a machine integer term")
+		}
+		hsh := fnv.New64a()
+		hsh.Write([]byte(ph.S + "|" + ph.T))
+		fn := fmt.Sprintf("sum_%x", hsh.Sum64())
+		g.D.declare("sum:"+fn, fmt.Sprintf("(declare-fun %s ((_ BitVec 64) (_ BitVec 64)) %s)", fn, ph.S))
+		term := fmt.Sprintf("(%s %s %s)", fn, lo, hi)
+		if !strings.Contains(hi, "q_") && !strings.Contains(lo, "q_") {
+			key := "sum-unfold:" + term
+			if g.root().sumUnfolded == nil {
+				g.root().sumUnfolded = map[string]bool{}
+			}
+			if !g.root().sumUnfolded[key] {
+				g.root().sumUnfolded[key] = true
+				prev := fmt.Sprintf("(bvsub %s (_ bv1 64))", hi)
+				bv := bodyAt(prev)
+				g.assume("true", and(
+					implies(fmt.Sprintf("(bvsle %s %s)", hi, lo), fmt.Sprintf("(= %s (_ bv0 %d))", term, bvWidth(ph.S))),
+					implies(fmt.Sprintf("(bvsgt %s %s)", hi, lo), fmt.Sprintf("(= %s (bvadd (%s %s %s) %s))", term, fn, lo, prev, bv.T))), "sum-unfold")
+			}
+		}
+		return Val{T: term, S: ph.S, Signed: ph.Signed, Go: ph.Go}
+	case "addrof":
+		// addrof(p.f) / addrof(p.f.g): the address of a field (or of a field nested in struct-valued
+		// fields) of the struct p points to; the same deterministic address term the executor gives
+		// to the corresponding FieldAddr chain
+		pl := g.placeOfExpr(x.Args[0], ctx)
+		return Val{T: g.opaqueAddr(pl), S: sortRef, Go: types.NewPointer(pl.Elem), Place: pl}
 	case "deref":
 		v := g.eval(x.Args[0], ctx)
 		if v.Go == nil {
